@@ -40,6 +40,7 @@ RECURSIVE LineSeqs(_)
 LineSeqs(n) == IF n = 0 THEN {<<>>} ELSE {<<l>> \o r : l \in UNION {{[text |-> tx, style |-> sy] : sy \in StyleSeqs(SumW(tx))} : tx \in MTexts}, r \in LineSeqs(n - 1)}
 Markups(z) == {[lines |-> ls, noeol |-> e, used |-> <<>>] : ls \in UNION {LineSeqs(n) : n \in 0..MaxLines}, e \in BOOLEAN}
 InitRender == c \in {[kind |-> "render", t |-> NilText, m |-> m] : m \in Markups(0)}
+InitBoth == InitRT \/ InitRender
 Next == UNCHANGED c
 
 \* Render must reject: a style char that is not defined; different style chars under one wide char
